@@ -246,6 +246,53 @@ def des_ede_schedule(chk):
     chk.floor('DES key schedule cases', n, 6)
 
 
+def ghash_pclmul_tail(chk):
+    """GHASH zero-pads the last partial block (SP 800-38D 6.4).  br_ghash_pclmul is not a byte loop: it splits the input into 64-byte
+    groups and up to four 16-byte blocks, and copies the tail into a local buffer.  Decided by constant propagation with len pinned:
+    the copy must take the bytes that end exactly at the end of the input (source offset + count == len, count == len mod 64) and the
+    zero fill must complete the copy to a multiple of 16."""
+    from .. import oblig, fold
+    R = 'ghash-partial-block'
+    src, fn = 'src/hash/ghash_pclmul.c', 'br_ghash_pclmul'
+    U = oblig.funit(src)
+    if fn not in U.funcs:
+        raise AnalysisBroken('%s vanished' % fn)
+    F = U.func(fn)
+    ps = F.f['params']
+    n = 0
+    for ln in (7, 17, 70, 135, 200, 64 * 5 + 47, 64, 128 + 16):
+        hy = [dict(kind='pin', n=ps[3]['n'], value=ln, param=True)]
+        Fo = U.optimise(fn, hy, (), 'function(sccp,instsimplify,simplifycfg,sccp,instsimplify,simplifycfg)')
+        cp, zs = [], []
+        for c in fold._reach_insts(Fo):
+            cal = c.get('callee') or ''
+            if c['op'] == 'call' and cal.startswith('llvm.memcpy'):
+                db, do = Fo.addr_of(c['ops'][0])
+                sb, so = Fo.addr_of(c['ops'][1])
+                if sb == {'k': 'a', 'v': 2} and db['k'] == 'i' and Fo.insts[db['v']]['op'] == 'alloca':
+                    cp.append((do, so, c['ops'][2].get('v') if c['ops'][2]['k'] == 'c' else None))
+            elif c['op'] == 'call' and cal.startswith('llvm.memset'):
+                db, do = Fo.addr_of(c['ops'][0])
+                if db['k'] == 'i' and Fo.insts[db['v']]['op'] == 'alloca':
+                    zs.append((do, c['ops'][1].get('v'), c['ops'][2].get('v') if c['ops'][2]['k'] == 'c' else None))
+        n += 1
+        inst = '%s: %d bytes => the partial last block is the last %d byte(s) of the input, zero-padded to 16' % (fn, ln, ln % 16)
+        if ln % 16 == 0:
+            if not cp:
+                chk.ok(R, inst.replace('the partial last block is', 'no partial block; not'), F.where())
+            else:
+                chk.violation(R, inst, F.where(), 'a tail copy %s remains for a length that is a multiple of 16' % cp, key='%s %d' % (R, ln))
+            continue
+        want_cp = [(0, 64 * (ln // 64), ln % 64)]
+        want_z = [(ln % 64, 0, (-ln) % 16)]
+        if cp == want_cp and zs == want_z:
+            chk.ok(R, inst, F.where())
+        else:
+            chk.violation(R, inst, F.where(), 'copies (dst offset, input offset, count) = %s, zero fills = %s; expected %s and %s' % (cp, zs, want_cp, want_z),
+                          key='%s %d' % (R, ln))
+    chk.floor('ghash_pclmul lengths', n, 8)
+
+
 def run(tier):
     chk = report.Check('C12', tier,
                        'Constant tables of the symmetric primitives compared with values generated from their standards (FIPS 197 S-box, inverse '
@@ -353,6 +400,8 @@ def run(tier):
     ctr_counter_advance(chk)
     poly1305_wrap(chk)
     des_ede_schedule(chk)
+    ghash_pclmul_tail(chk)
     from .. import lints as _l
+    _l.tail_copy_from_running_pointer(chk, ('src/symcipher/', 'src/hash/'))
     _l.limb_split_consistent(chk, ['src/symcipher/'])
     return chk.finish()
